@@ -40,6 +40,19 @@ fn remove_reg(regs: &mut Vec<Reg>, target: usize, next: &mut usize, gone: &mut V
                 }
                 *next += 1;
             }
+            Reg::TlDisp { inner } => {
+                if here == target {
+                    let k = 1 + count_systems(inner);
+                    regs.remove(i);
+                    return Some(k);
+                }
+                *next += 1;
+                let mut g2 = Vec::new();
+                if let Some(k) = remove_reg(inner, target, next, &mut g2) {
+                    strip_deps(inner, &g2);
+                    return Some(k);
+                }
+            }
             Reg::Batch { name, inner, .. } => {
                 if here == target {
                     let k = 1 + count_systems(inner);
@@ -175,7 +188,7 @@ fn scenario_candidates(sc: &Scenario, strat: &StratSpec) -> Vec<(Scenario, Strat
                 return true;
             }
             *idx += 1;
-            if let Reg::Batch { inner, .. } = r {
+            if let Reg::Batch { inner, .. } | Reg::TlDisp { inner } = r {
                 if for_each_reg(inner, idx, target, f) {
                     return true;
                 }
@@ -264,7 +277,7 @@ fn scenario_candidates(sc: &Scenario, strat: &StratSpec) -> Vec<(Scenario, Strat
                     }
                     _ => {}
                 },
-                Reg::Barrier => {}
+                Reg::Barrier | Reg::TlDisp { .. } => {}
             });
             if changed {
                 out.push((c, strat.clone()));
